@@ -16,8 +16,8 @@ def _all(f):
     return True
 
 
-prop("C03", ["take_range", "sort_take", "limit_clause", "flatten_sort", "sort_infer", "lower_transform", "split_order", "sort_names", "dialect_flags", "group_take", "range_sugar", "pl_fold", "cid_inline"],
-     select={"cid_inline": lambda n: n.split(".", 1)[1] in ("CP1", "CP2", "post_column_slice.safety", "post_column_slice.unwrap"), "pl_fold": lambda n: n.split(".", 1)[1] in ("PTK1", "PTK2", "PT1", "PS1", "PS2", "PR1", "PO1", "PE1", "PE2", "PX1") or n.endswith(".safety"), "range_sugar": lambda n: n.split(".", 1)[1] in ("ER1", "RR1", "RR2", "RR3", "RN1", "RT1", "RF1", "TK1", "TK2", "TK3", "EN1") or n.endswith(".safety"), "dialect_flags": lambda n: n.rsplit(".", 1)[1] in ("use_fetch", "limit_for_bare_offset"), "split_order": lambda n: n.split(".", 1)[1] in ("RO1", "RO2", "RO3", "reorder_should_swap.safety", "IC1", "IC2", "IC3") or n.split(".", 1)[1].startswith("SO1.Take.")},
+prop("C03", ["take_range", "sort_take", "limit_clause", "flatten_sort", "sort_infer", "lower_transform", "split_order", "sort_names", "dialect_flags", "group_take", "range_sugar", "pl_fold", "cid_inline", "rq_fold"],
+     select={"rq_fold": lambda n: n.split(".", 1)[1] in ("FT1", "FT2", "FS1", "fold_transform.safety", "fold_column_sorts.safety"), "cid_inline": lambda n: n.split(".", 1)[1] in ("CP1", "CP2", "post_column_slice.safety", "post_column_slice.unwrap"), "pl_fold": lambda n: n.split(".", 1)[1] in ("PTK1", "PTK2", "PT1", "PS1", "PS2", "PR1", "PO1", "PE1", "PE2", "PX1") or n.endswith(".safety"), "range_sugar": lambda n: n.split(".", 1)[1] in ("ER1", "RR1", "RR2", "RR3", "RN1", "RT1", "RF1", "TK1", "TK2", "TK3", "EN1") or n.endswith(".safety"), "dialect_flags": lambda n: n.rsplit(".", 1)[1] in ("use_fetch", "limit_for_bare_offset"), "split_order": lambda n: n.split(".", 1)[1] in ("RO1", "RO2", "RO3", "reorder_should_swap.safety", "IC1", "IC2", "IC3") or n.split(".", 1)[1].startswith("SO1.Take.")},
      not_covered="alias_last_sorting and CidRedirector::redirect_sorts (how the sorting is re-expressed across cid redirects: folds over PQ with HashMap state); the driver loops of the sort inference (its step and the CTE record are under contract), "
                  "ensure_names for sort columns; the recursion of Flattener::fold_expr itself (the arms are proved against its contract)")
 
@@ -143,7 +143,7 @@ claim("C14",
       "pr::Expr::write's use of needs_parenthesis and the non-binary arms' option handling are read off the text, not verified; chumsky's pratt() "
       "semantics assumed; regex / HashSet / Formatter / String operations are shims by contract.")
 
-prop("C05", ["select_shape", "star_exclude", "limit_select", "star_cols", "sstring_cols", "lineage_except", "sort_infer", "select_cols", "positional_map", "dialect_flags", "rq_shape", "pipeline_types", "anchor_names"],
+prop("C05", ["select_shape", "star_exclude", "limit_select", "star_cols", "sstring_cols", "lineage_except", "sort_infer", "select_cols", "positional_map", "dialect_flags", "rq_shape", "pipeline_types", "anchor_names", "literal_rows"],
      select={"anchor_names": lambda n: n.split(".", 1)[1] in ("LN1", "LN1i", "LN2", "EN1", "EN3") or n.endswith(".safety"), "pipeline_types": lambda n: n.split(".", 1)[1] in ("GL1", "GL2", "group_lineage.safety"), "rq_shape": lambda n: n.split(".", 1)[1] in ("AP1", "AP2", "append_single_arm.safety"), "dialect_flags": lambda n: n.rsplit(".", 1)[1] in ("column_exclude", "supports_zero_columns"), "positional_map": lambda n: n.split(".", 1)[1] in ("PM1", "PM3", "PM4", "PM5", "PM8", "activate_mapping.safety", "apply_active_mapping.safety", "select_arm.safety", "compute_arm.safety"), "sort_infer": lambda n: n.split(".", 1)[1] in ("SC1", "SC2", "SC3", "carry_sort_columns.safety", "carry_sort_columns.loop_exit")},
      not_covered="the rest of translate_wildcards (bookkeeping of the current star and of the exclusion sets), split_off_back / anchor_split behind extract_atomic, agreement "
                  "with the resolver's frame for every program, run-time expansion of `*`")
@@ -279,7 +279,7 @@ claim("C08",
       "sqlparser's Display (leaves doubled quotes alone - read in its source, validated by the thorough-tier sweep on SQLite) and sqlformat (white space only, given "
       "its precondition) are trusted; str::parse, str::replace and format! are uninterpreted; date/time/interval arms are not under contract.")
 
-prop("C07", ["set_ops", "limit_clause", "literals", "rel_names", "cte_define", "sql_prec", "static_eval", "positional_map", "rq_fold", "dialect_flags", "literal_rows", "sql_templates", "operator_tpl", "sql_relations", "split_order", "sstring_cols"], select={"sstring_cols": lambda n: n.split(".", 1)[1] in ("PN1", "PN2", "PN3", "SC1") or n.endswith(".safety"), "split_order": lambda n: n.split(".", 1)[1].startswith(("SO1.Union.", "SO1.Except.", "SO1.Intersect.")) or n.split(".", 1)[1] in ("is_split_required.safety",), "operator_tpl": lambda n: n.split(".", 1)[1] in ("TP4", "TP4v", "operator_lookup_slice.safety", "operator_lookup_slice.unwrap"), "static_eval": lambda n: n.split(".", 1)[1] in ("SE2w", "SE2i", "SE2x", "static_eval_case.safety"), "literals": lambda n: n.split(".", 1)[1] in ("EI1", "expr_of_i64.safety", "TL1i", "TL1f", "NE1", "FM1"), "sql_prec": lambda n: n.split(".", 1)[1].startswith("NP4.std_neg") or n.endswith(".safety")},
+prop("C07", ["set_ops", "limit_clause", "literals", "rel_names", "cte_define", "sql_prec", "static_eval", "positional_map", "rq_fold", "dialect_flags", "literal_rows", "sql_templates", "operator_tpl", "sql_relations", "split_order", "sstring_cols", "sort_infer"], select={"sort_infer": lambda n: n.split(".", 1)[1] in ("SI2", "SI6", "SI7", "sort_step.safety") or n.split(".", 1)[1].startswith("SI"), "sstring_cols": lambda n: n.split(".", 1)[1] in ("PN1", "PN2", "PN3", "SC1") or n.endswith(".safety"), "split_order": lambda n: n.split(".", 1)[1].startswith(("SO1.Union.", "SO1.Except.", "SO1.Intersect.")) or n.split(".", 1)[1] in ("is_split_required.safety",), "operator_tpl": lambda n: n.split(".", 1)[1] in ("TP4", "TP4v", "operator_lookup_slice.safety", "operator_lookup_slice.unwrap"), "static_eval": lambda n: n.split(".", 1)[1] in ("SE2w", "SE2i", "SE2x", "static_eval_case.safety"), "literals": lambda n: n.split(".", 1)[1] in ("EI1", "expr_of_i64.safety", "TL1i", "TL1f", "NE1", "FM1"), "sql_prec": lambda n: n.split(".", 1)[1].startswith("NP4.std_neg") or n.endswith(".safety")},
      not_covered="scope of every table / column reference, per-dialect grammar, empty projections, relation alias uniqueness (assign_names), "
                  "which dialects besides SQLite have no bare OFFSET (MySQL, BigQuery: the handler table is assumed, not executable here)")
 claim("C07",
@@ -288,7 +288,7 @@ claim("C07",
       "(WR1, loop invariant, any number of CTEs) and carries every CTE (WR2); the set quantifier is ALL iff duplicates are kept and DISTINCT is written "
       "only where the dialect accepts it (SQ1-2); the LIMIT / OFFSET / FETCH clause is one the dialect's grammar has: FETCH never without OFFSET and ORDER BY and "
       "never together with LIMIT (LC1, LC1f), a dialect without bare OFFSET gets a LIMIT meaning `no limit` whenever it gets an OFFSET (LC3, LC4), row counts are "
-      "written as plain decimal digits (literals EI1); CTE names and relation aliases are unique in their scope (rel_names AN1-2, RN1-2); nested unary minus never produces the comment token `--` (sql_prec NP4.std_neg rows). a table compiled inline leaves its declaration NotYetDefined, so no reference is compiled to the name of a CTE that was never emitted (cte_define CI1); a `case` that survives constant folding has a WHEN branch - it is neither empty nor a lone `true => v`, which the generator would print as `CASE ELSE v END` (static_eval SE2w, inductive over the branch values); the default RQ fold hands every expression and column id of a node to the folder - array elements, case branches, s-string items, operator arguments, window bounds, sort keys - so CidCollector / CidRedirector see every column reference when a pipeline is split into CTEs (rq_fold FK1 ... FD1, loops by invariant); a FROM item is named by its alias unless its own name is the alias (sql_relations RA1-2); a CTE is marked recursive exactly when it is a loop, and a loop is `initial UNION ALL step` (TC1-2). nothing but a sort or another set operation stays in the SELECT of a set operation - a join, a filter, a compute after it starts a new SELECT over a CTE (split_order SO1.Union / Except / Intersect rows), which is what translate_set_ops_pipeline relies on; the columns declared for an s-string relation are names its SELECT list really produces (sstring_cols PN1-3, SC1). The sentence "
+      "written as plain decimal digits (literals EI1); CTE names and relation aliases are unique in their scope (rel_names AN1-2, RN1-2); nested unary minus never produces the comment token `--` (sql_prec NP4.std_neg rows). a table compiled inline leaves its declaration NotYetDefined, so no reference is compiled to the name of a CTE that was never emitted (cte_define CI1); a `case` that survives constant folding has a WHEN branch - it is neither empty nor a lone `true => v`, which the generator would print as `CASE ELSE v END` (static_eval SE2w, inductive over the branch values); the default RQ fold hands every expression and column id of a node to the folder - array elements, case branches, s-string items, operator arguments, window bounds, sort keys - so CidCollector / CidRedirector see every column reference when a pipeline is split into CTEs (rq_fold FK1 ... FD1, loops by invariant); a FROM item is named by its alias unless its own name is the alias (sql_relations RA1-2); a CTE is marked recursive exactly when it is a loop, and a loop is `initial UNION ALL step` (TC1-2). nothing but a sort or another set operation stays in the SELECT of a set operation - a join, a filter, a compute after it starts a new SELECT over a CTE (split_order SO1.Union / Except / Intersect rows), which is what translate_set_ops_pipeline relies on; the columns declared for an s-string relation are names its SELECT list really produces (sstring_cols PN1-3, SC1). an explicit sort - the empty one that distinct() puts in front of a DISTINCT ON included - replaces the sorting in effect, so a DISTINCT ON is never preceded by an ORDER BY inherited from a CTE that does not start with its keys (sort_infer SI2). The sentence "
       "'every accepted program compiles to valid SQL of the dialect' is NOT what is proved.",
       "dialect flags and translate_cte are parameters / externals of the slices; the rest of except(), translate_query and "
       "translate_set_ops_pipeline is dropped.")
